@@ -527,6 +527,8 @@ def m_deque(R, args, kw, node):
 def m_set(R, args, kw, node):
     if not args:
         hint = R.ctx.type_hint(node)
+        if (hint is None or hint.kind != "set") and R.ctx.c.config.get("default_set_elem") is not None:
+            hint = T.Set(R.ctx.c.config["default_set_elem"])  # contract-wide element type of anonymous `set()` values
         if hint is None or hint.kind != "set":
             raise Unsupported("set() without declared local type")
         st = T.VSet(hint.elem)
@@ -1245,6 +1247,8 @@ def call_method(R, recv, name, args, kw, node):
         raise PyRaise(Exc("AttributeError", tag=lab(R, node, "." + name)))
     if k == "opaque":
         return R.ctx.call_opaque_method(R, recv, name, args, kw, node)
+    if k == "sref":
+        return sref_method(R, recv, name, args, kw, node)
     f = METHODS.get((k, name))
     if f is None:
         cm = R.ctx.custom_method(recv, name)
@@ -1259,6 +1263,47 @@ def call_method(R, recv, name, args, kw, node):
         # synthesise a node so that models reading node.func.attr keep working
         node = ast.Call(func=ast.Attribute(value=ast.Name(id="_", ctx=ast.Load()), attr=name, ctx=ast.Load()), args=[], keywords=[], lineno=getattr(node, "lineno", 0))
     return f(R, recv, args, kw, node)
+
+
+def sref_method(R, recv, name, args, kw, node):
+    """mutators of a set living by value in a list slot: the new value goes back into the slot"""
+    cur = R.sref_value(recv)
+    et = cur.t.elem
+    if name in ("add", "discard", "remove"):
+        x = R.coerce(R.data(args[0]), et)
+        if name == "remove":
+            R.fail_if(z3.Not(z3.Select(cur.z, x.z)), "KeyError", lab(R, node, "remove"))
+        new = z3.Store(cur.z, x.z, z3.BoolVal(name == "add"))
+    elif name == "update":
+        o = args[0]
+        if o.t.kind == "set":
+            o = R.content(o)
+        elif o.t.kind == "sref":
+            o = R.sref_value(o)
+        if o.t.kind == "vset":
+            new = z3.Const(fresh_name("union"), cur.t.sort())
+            k = z3.Const(fresh_name("uk"), et.sort())
+            R.assume(z3.ForAll([k], z3.Select(new, k) == z3.Or(z3.Select(cur.z, k), z3.Select(o.z, k)), patterns=[z3.Select(new, k)]))
+        elif o.t.kind in ("seq", "list"):
+            sq = R.as_seq(o)
+            new = z3.Const(fresh_name("union"), cur.t.sort())
+            k = z3.Const(fresh_name("uk"), et.sort())
+            j = z3.Int(fresh_name("uj"))
+            wit = z3.Function(fresh_name("uwit"), et.sort(), z3.IntSort())
+            # k in new  <=>  k in cur or k occurs in the sequence (skolem position for the => direction)
+            R.assume(z3.ForAll([k], z3.Implies(z3.Select(new, k), z3.Or(z3.Select(cur.z, k), z3.And(0 <= wit(k), wit(k) < z3.Length(sq.z), sq.z[wit(k)] == k))),
+                               patterns=[z3.Select(new, k)]))
+            R.assume(z3.ForAll([k], z3.Implies(z3.Select(cur.z, k), z3.Select(new, k)), patterns=[z3.Select(cur.z, k)]))
+            R.assume(z3.ForAll([j], z3.Implies(z3.And(0 <= j, j < z3.Length(sq.z)), z3.Select(new, sq.z[j])), patterns=[sq.z[j]]))
+        else:
+            raise Unsupported("set.update(%s)" % o.t)
+    elif name == "__contains__":
+        return mk_bool(z3.Select(cur.z, R.coerce(R.data(args[0]), et).z))
+    else:
+        raise Unsupported("method %s of a set in a list slot" % name)
+    lst, idx = recv.z
+    R.lref_store(recv, new)
+    return mk_none()
 
 
 # ------------------------------------------------------------------------- with
